@@ -29,7 +29,8 @@
      err    s = "payload" | "other:<Type>", n = bytes read so far, k = digest of the reference prefix of that length
      srv    server read()/post() outcome: s = "ok" | "413" | "payload" | "other:<Type>",
             "ok": n = returned length, m = digest; "413": n = payload.total_bytes, k = bytes read()
-            had accumulated when it raised (total_bytes minus what read_nowait() still finds buffered)
+            had accumulated when it raised (total_bytes minus what read_nowait() still finds buffered;
+            -1: not observable)
      stuck  nothing is runnable, all input was delivered, the application still waits
             (k = 1: the parser holds input back although nobody is paused)
      budget the step budget was exhausted
@@ -72,7 +73,9 @@ ResidentBad(o) == o.size >= 0 /\ o.low < CAP /\ o.high < CAP /\ o.size > Residen
 \* BaseRequest.read(): low water = client_max_size, so at most client_max_size + (high + one call) bytes
 \* have been decoded when the 413 test fires
 AccBound == LET mx == Max(C.limit, C.cms) IN C.cms + 2 * mx + (IF C.identity THEN C.maxPiece ELSE IF C.br THEN 2 * mx + 32768 ELSE mx)
-StepBound == 60 * (C.inLen + C.refLen + C.pauses) + 600
+\* loop steps allowed: 60 per byte of input + output + scheduled waiting, + 600
+\* (written with a division: TLC integers are 32 bit and bodies reach 100 MiB)
+TooManySteps(steps) == steps \div 60 > C.inLen + C.refLen + C.pauses + 10
 
 ErrExpected == ~C.refOk \/ C.netTrunc
 
@@ -121,7 +124,7 @@ EvBad(e) ==
            [] e.ev = "budget" -> "Livelock"
            [] e.ev = "end" ->
                 IF outcome = "" THEN "Stuck"
-                ELSE IF o.steps > StepBound THEN "TooManySteps"
+                ELSE IF TooManySteps(o.steps) THEN "TooManySteps"
                 ELSE IF l + 1 # NEvents(tid) THEN "EventsAfterEnd"
                 ELSE ""
            [] OTHER -> ""
